@@ -56,13 +56,71 @@ def probe_work(ns):
     return counts
 
 
+MEMO_PROBES = [
+    # constructs the library DOES memoise (Repetition results and failures, keyed by (source, offset)): the same repetition is
+    # reached from several alternatives at the same offset and recursion goes through it; linear in the unchanged library,
+    # 3^n without the memo
+    ("plus-fail", ['l = 1*i', 'i = "(" ( l "x" / l "y" / l "z" ) / "a"'], "l", lambda n: "(" * n + "?"),
+    ("plus-succeed", ['l = 1*i', 'i = "(" ( l "x" / l "y" / l "z" ) / "a"'], "l", lambda n: "(" * n + "a" + "z" * n),
+    ("star-fail", ['l = *i', 'i = "(" ( l ")" / l "]" / l "}" ) / "a"'], "l", lambda n: "(" * n + "?"),
+    ("star-succeed", ['l = *i', 'i = "(" ( l ")" / l "]" / l "}" ) / "a"'], "l", lambda n: "(" * n + "a" + "}" * n),
+    ("flat", ['s = *"a"', 't = s "x" / s "y" / s "z" / s "w"'], "t", lambda n: "a" * n + "w"),
+    ("nested-star", ['o = *( "(" o ")" / "(" o "]" ) "a"'], "o", lambda n: "(" * n + "a" + "]a" * n),
+]
+
+
+def probe_memo(ns):
+    """literal-match calls per probe and input length; a call budget stops a blow-up early"""
+    import time
+    out = []
+    orig = Literal._lparse_value
+    calls = [0]
+
+    class Budget(Exception):
+        pass
+
+    def counting(self, source, start):
+        calls[0] += 1
+        if calls[0] > 400000:
+            raise Budget
+        return orig(self, source, start)
+    Literal._lparse_value = counting
+    try:
+        for name, lines, start, mk in MEMO_PROBES:
+            cls = type("W", (Rule,), {})
+            for ln in lines:
+                cls.create(ln)
+            row = []
+            for n in ns:
+                s = mk(n)
+                calls[0] = 0
+                t0 = time.time()
+                try:
+                    cls(start).parse_all(s)
+                    r = "ok"
+                except ParseError:
+                    r = "ParseError"
+                except Budget:
+                    r = "budget"
+                except RecursionError:
+                    r = "RecursionError"
+                row.append([len(s), calls[0], r])
+                if r == "budget" or time.time() - t0 > 20:
+                    break
+            out.append({"probe": name, "grammar": lines, "rows": row})
+    finally:
+        Literal._lparse_value = orig
+    return out
+
+
 def main():
     ap = argparse.ArgumentParser()
     ap.add_argument("--out", required=True)
     a = ap.parse_args()
     ns = [6, 7, 8, 9, 10, 11, 12]
     json.dump({"recursion_limit": sys.getrecursionlimit(), "recursion_400": probe_recursion(400),
-               "recursion_100": probe_recursion(100), "work_ns": ns, "work_calls": probe_work(ns)}, open(a.out, "w"))
+               "recursion_100": probe_recursion(100), "work_ns": ns, "work_calls": probe_work(ns),
+               "memo_probes": probe_memo([2, 4, 6, 8, 10, 12, 14])}, open(a.out, "w"))
 
 
 if __name__ == "__main__":
